@@ -153,6 +153,20 @@ def slices(prop, tier, seed):
                                      max_n=3 if th else 2)))
         S.append(("S-time", W.s_time({"EDF": gp["EDF"]} if not th else gp, seed,
                                      max_n=2 if not th else 3)))
+    elif prop == "C10":
+        S.append(("S-dag", W.s_dag(g3, seed, max_n=3)))
+        S.append(("S-res", W.s_res(g3 if not th else g, seed, full=th)))
+        S.append(("S-plan", W.s_plan(pp if th else pp_small, seed,
+                                     max_n=3 if th else 2)))
+        S.append(("S-cond", W.s_cond(gp, seed, clusters=("1x2",), releases=("two@0",))))
+        if th:
+            S.append(("S-time", W.s_time(gp, seed)))
+            S.append(("S-closed", W.s_closed(g, seed)))
+    elif prop == "C12":
+        enf = {k: v for k, v in pp.items() if v.get("enforce_deadlines")}
+        S.append(("S-plan", W.s_plan(enf if th else {k: enf[k] for k in pp_small},
+                                     seed, max_n=3 if th else 2,
+                                     slacks=((0, 0), (50, 50), (100, 100)))))
     elif prop == "C19":
         S.append(("S-closed", W.s_closed(g, seed)))
         S.append(("S-closed-plan", W.s_closed({k: pp[k] for k in ("ILP", "TSG+drop",
@@ -180,6 +194,8 @@ REQUIRED = {
     "C06": ("cancellations", "graphs_finished", "dead_tasks"),
     "C07": ("conditional_completions",),
     "C18": ("offers", "offered_tasks"),
+    "C10": ("schedule_calls_judged", "placements_judged", "jointly_feasible_decisions"),
+    "C12": ("finishes_judged_against_deadline",),
     "C19": ("closed_loop_runs", "closed_loop_rereleases",
             "runs_reaching_full_concurrency"),
     "C08": ("runs_with_rows_checked", "traces_accepted_by_reader", "missed_deadlines",
